@@ -158,6 +158,11 @@ func runC11(res *Result, d *Driver, g *Rng, tier string) {
 					res.Violate(cls, fmt.Sprintf("the decoder accepted a %d-octet image but the decoded PDU does not re-encode (%s)", len(im), eline), []string{decOp, encOp})
 					continue
 				}
+				// what is relayed is a frame: its length word is its length (a framer at the next hop cuts by it)
+				if s.lenField != "" && len(img2) >= 4 && int(binary.BigEndian.Uint32(img2[:4])) != len(img2) {
+					res.Violate("C11.reencoded-not-a-frame:"+name, fmt.Sprintf("the re-encoded image has %d octets but announces %d", len(img2), binary.BigEndian.Uint32(img2[:4])), []string{decOp, encOp})
+					continue
+				}
 				_, rec2, _ := goDec(name, img2)
 				if rec2 == nil {
 					res.Violate("C11.redecode-fails:"+name, "re-encoded bytes are not decodable", []string{decOp, encOp, "dec " + name + " " + hx(img2)})
